@@ -52,7 +52,21 @@ type doc11 struct {
 
 type file11 struct {
 	Name string  `json:"name"`
+	Sub  string  `json:"sub,omitempty"` // sub-directory of the kustomization directory holding the file ("sub", "a/b")
+	Dot  bool    `json:"dot,omitempty"` // written as ./path in the resources list
 	Docs []doc11 `json:"docs"`
+}
+
+// relPath is the entry written into the resources list.
+func (f *file11) relPath() string {
+	p := f.Name
+	if f.Sub != "" {
+		p = f.Sub + "/" + p
+	}
+	if f.Dot {
+		p = "./" + p
+	}
+	return p
 }
 
 type sort11 struct {
@@ -88,6 +102,7 @@ type ent11 struct {
 type dir11 struct {
 	Name    string  `json:"name"`
 	Sibling bool    `json:"sibling,omitempty"` // placed beside its parent (../name) instead of inside it
+	Place   string  `json:"place,omitempty"`   // how the parent refers to it: "" (name), dot (./name), slash (name/), aux (../aux/name), deep (sub/name)
 	Ents    []ent11 `json:"ents"`
 	Prefix  string  `json:"prefix,omitempty"`
 	Suffix  string  `json:"suffix,omitempty"`
@@ -189,6 +204,16 @@ func (d *dir11) relPath() string {
 	if d.Sibling {
 		return "../" + d.Name
 	}
+	switch d.Place {
+	case "dot":
+		return "./" + d.Name
+	case "slash":
+		return d.Name + "/"
+	case "aux":
+		return "../aux/" + d.Name
+	case "deep":
+		return "sub/" + d.Name
+	}
 	return d.Name
 }
 
@@ -205,7 +230,7 @@ func (d *dir11) kustomization() string {
 		b.WriteString("resources:\n")
 		for _, e := range d.Ents {
 			if e.File != nil {
-				fmt.Fprintf(&b, "- %s\n", e.File.Name)
+				fmt.Fprintf(&b, "- %s\n", e.File.relPath())
 			} else {
 				fmt.Fprintf(&b, "- %s\n", e.Dir.relPath())
 			}
@@ -285,7 +310,11 @@ func (d *dir11) materialize(fs filesys.FileSystem, root string) error {
 	}
 	for _, e := range d.Ents {
 		if e.File != nil {
-			if err := fs.WriteFile(path.Join(root, e.File.Name), []byte(e.File.yaml())); err != nil {
+			fp := path.Join(root, e.File.relPath())
+			if err := fs.MkdirAll(path.Dir(fp)); err != nil {
+				return err
+			}
+			if err := fs.WriteFile(fp, []byte(e.File.yaml())); err != nil {
 				return err
 			}
 		} else if err := e.Dir.materialize(fs, path.Join(root, e.Dir.relPath())); err != nil {
@@ -498,6 +527,10 @@ func (g *gen11) doc() doc11 {
 func (g *gen11) file() *file11 {
 	g.nFile++
 	f := &file11{Name: fmt.Sprintf("f%d.yaml", g.nFile)}
+	if g.rng.Chance(25) {
+		f.Sub = g.rng.Pick([]string{"sub", "a/b", "res"})
+	}
+	f.Dot = g.rng.Chance(15)
 	n := 1 + g.rng.Intn(3)
 	if g.rng.Chance(10) {
 		n = 0
@@ -510,9 +543,21 @@ func (g *gen11) file() *file11 {
 
 func (g *gen11) dir(depth int, top bool) *dir11 {
 	g.nDir++
-	d := &dir11{Name: fmt.Sprintf("d%d", g.nDir), Prefix: g.rng.Pick(c11Prefixes), Suffix: g.rng.Pick(c11Suffixes)}
+	idx := g.nDir
+	d := &dir11{Name: fmt.Sprintf("d%d", idx), Prefix: g.rng.Pick(c11Prefixes), Suffix: g.rng.Pick(c11Suffixes)}
 	if !top {
-		d.Sibling = g.rng.Chance(40)
+		switch k := g.rng.Intn(10); {
+		case k < 3:
+			d.Sibling = true
+		case k < 4:
+			d.Place = "dot"
+		case k < 5:
+			d.Place = "slash"
+		case k < 7:
+			d.Place = "aux"
+		case k < 8:
+			d.Place = "deep"
+		}
 	}
 	n := 1 + g.rng.Intn(4)
 	if g.rng.Chance(5) {
@@ -539,12 +584,20 @@ func (g *gen11) dir(depth int, top bool) *dir11 {
 			d.Annotations = map[string]string{g.rng.Pick([]string{"note", "owner"}): g.rng.Pick([]string{"n1", "n2"})}
 		}
 		if g.rng.Chance(30) {
-			d.CMGens = append(d.CMGens, cmgen11{Name: g.rng.Pick([]string{"gen", "gen2"}) + fmt.Sprint(g.nDir),
+			d.CMGens = append(d.CMGens, cmgen11{Name: fmt.Sprintf("gen-%s%d", g.rng.Pick([]string{"a", "b"}), idx),
 				Literals: []string{"k=" + g.rng.Pick([]string{"v1", "v2"})}})
+		}
+		// generators layer like dictionaries: sometimes merge into a generator of a direct child
+		for _, e := range d.Ents {
+			if e.Dir != nil && len(e.Dir.CMGens) > 0 && e.Dir.CMGens[0].Behavior == "" && g.rng.Chance(35) {
+				d.CMGens = append(d.CMGens, cmgen11{Name: e.Dir.CMGens[0].Name, Behavior: "merge",
+					Literals: []string{g.rng.Pick([]string{"k", "k2"}) + "=" + g.rng.Pick([]string{"w1", "w2"})}})
+				break
+			}
 		}
 		if g.rng.Chance(25) {
 			d.Patches = append(d.Patches, patch11{TargetKind: g.rng.Pick([]string{"ConfigMap", "Deployment", "Service"}),
-				Key: "patched" + fmt.Sprint(g.nDir), Value: g.rng.Pick([]string{"p1", "p2"})})
+				Key: "patched" + fmt.Sprint(idx), Value: g.rng.Pick([]string{"p1", "p2"})})
 		}
 		if g.rng.Chance(20) {
 			d.Images = append(d.Images, image11{Name: g.rng.Pick([]string{"nginx", "busybox", "redis"}), NewTag: g.rng.Pick([]string{"9.9", "latest"})})
@@ -689,6 +742,7 @@ func wrapTree(t *dir11, sibling bool) *dir11 {
 	w := &dir11{Name: "wrapper", Sort: inner.Sort}
 	inner.Sort = nil
 	inner.Sibling = sibling
+	inner.Place = ""
 	inner.Name = "wrapped"
 	w.Ents = []ent11{{Dir: inner}}
 	return w
